@@ -104,7 +104,7 @@ PROPS["C06"] = {
     "mc_quick": [mc("MCRespRules", "MCRespRules.cfg")] + [mc("MCRespRules", "MCRespRules_%s.cfg" % d, expect_violation="ImplAdmissible")
                  for d in ("LengthBeatsChunked", "ChunkedOnHttp10", "NoConnectClause", "No304Clause", "ChunkedExactCaseOnly")],
     "mc_thorough": [mc("MCRespRules", "MCRespRules_all.cfg", workers=8)],
-    "require_kinds": ["cell"],
+    "require_kinds": ["cell"], "require_classes": ["cell:after-interim"],
     "rule": "one cell = (method, status, response version, Content-Length kind, Transfer-Encoding kind) fed as a head to a flow (or single call) built for that method; "
             "distinct = distinct methods and statuses (every cell of their product with 2 x 5 x 5 header combinations is evaluated)",
     "assumptions": ["Content-Length values with sign or leading zeros are outside the quantifier and not generated"],
